@@ -429,16 +429,18 @@ func randValFav(r *rand.Rand, fav string) valDesc {
 }
 
 type cacheGen struct {
-	r       *rand.Rand
-	targets []string // all names ever used
-	shared  int
-	fav     string    // favourite value arm of this scenario
-	hist    []cacheOp // recent GnmiUpdate ops, source of same-timestamp variants
-	w       []int     // weights of the op kinds, see cacheProfiles
-	tsDense bool      // timestamps close together (many equal / out-of-order)
-	thr     int64     // future threshold of the scenario (0: none)
-	lastFut int64     // timestamp of the last future probe
-	follow  string    // target of a future probe just made: the next op re-probes it
+	r        *rand.Rand
+	targets  []string // all names ever used
+	shared   int
+	fav      string    // favourite value arm of this scenario
+	hist     []cacheOp // recent GnmiUpdate ops, source of same-timestamp variants
+	w        []int     // weights of the op kinds, see cacheProfiles
+	tsDense  bool      // timestamps close together (many equal / out-of-order)
+	thr      int64     // future threshold of the scenario (0: none)
+	lastFut  int64     // timestamp of the last future probe
+	follow   string    // target of a future probe just made: the next op re-probes it
+	mixKinds bool      // containers written where leaves are and the reverse (cache family only: a subscriber's queue
+	//                   holds leaf handles, and a handle whose leaf changed kind in place is outside the stream properties)
 }
 
 // Weights per op kind: single, multi, atomic, delete, empty, unknown-target, Sync, Connect,
@@ -642,7 +644,7 @@ func (g *cacheGen) fresh(now *int64) cacheOp {
 	switch {
 	case x < 34: // single update
 		pre, p := g.dataPath(t, false)
-		if r.Intn(12) == 0 {
+		if g.mixKinds && r.Intn(12) == 0 {
 			// a plain leaf exactly where an atomic container is (or was) stored, often with the value of one of its members
 			for _, h := range g.hist {
 				if h.T == t && h.Atomic && h.Prefix != nil && len(h.Ups) > 0 {
@@ -694,7 +696,7 @@ func (g *cacheGen) fresh(now *int64) cacheOp {
 		if r.Intn(3) == 0 {
 			pre.Elems = append(pre.Elems, elemDesc{Name: "a"})
 		}
-		if r.Intn(6) == 0 {
+		if g.mixKinds && r.Intn(6) == 0 {
 			// ... or exactly where a plain leaf was written: a container replacing a leaf (and, through the
 			// single updates below, a leaf replacing a container) - the stored kind and the incoming kind differ
 			for _, h := range g.hist {
@@ -803,7 +805,7 @@ func cacheRandom(args []string) error {
 		if *profile == "multi" && len(all) < 2 {
 			all = []string{"dev1", "dev10"}
 		}
-		g := &cacheGen{r: r, targets: all, w: weights, tsDense: *profile == "ts" || r.Intn(3) == 0}
+		g := &cacheGen{r: r, targets: all, w: weights, tsDense: *profile == "ts" || r.Intn(3) == 0, mixKinds: true}
 		if r.Intn(2) == 0 {
 			g.fav = cacheArms[r.Intn(len(cacheArms))]
 		}
